@@ -36,7 +36,27 @@ def ends_control(stmts):
         return True
     if k == 'CompoundStmt':
         return ends_control(last.get('c', []))
+    if k == 'IfStmt' and len(last.get('c', [])) >= 3 and last['c'][2] is not None:
+        # if / else where both branches leave
+        return ends_control([last['c'][1]]) and ends_control([last['c'][2]])
+    if k == 'SwitchStmt':
+        # a nested switch with a default arm whose arms all leave by return / throw / goto / continue (a break only leaves
+        # the nested switch)
+        try:
+            arms = switch_arms(last)
+        except Exception:
+            return False
+        def leaves(stmts):
+            return ends_control(stmts) and not _ends_with_break(stmts)
+        return bool(arms) and any(a['default'] for a in arms) and all(leaves(a['eff']) for a in arms)
     return False
+
+
+def _ends_with_break(stmts):
+    last = stmts[-1]
+    if last['k'] == 'CompoundStmt':
+        return bool(last.get('c')) and _ends_with_break(last['c'])
+    return last['k'] == 'BreakStmt'
 
 
 def switch_arms(sw):
